@@ -86,7 +86,13 @@ pub fn c11_case(rp: &Position, board: &Board, legal: &[Mv], k: u64, positional: 
                     }
                 }
                 None => {
-                    if o.max_depth != SENTINEL && !legal.is_empty() {
+                    if o.polls <= k && !legal.is_empty() {
+                        // the limit never reported expiry, so nothing can have cut the first pass short
+                        d.push(Divergence::new(
+                            "search-gives-up-without-a-move-before-the-limit-expired",
+                            format!("{fen} k={k}: the search ended by itself after {} polls (limit not expired), {} legal moves, returned None", o.polls, legal.len()),
+                        ));
+                    } else if o.max_depth != SENTINEL && !legal.is_empty() {
                         d.push(Divergence::new(
                             "search-returns-no-move-although-a-pass-completed",
                             format!("{fen} expiry at poll {k}: pass {} completed, {} legal moves, returned None", o.max_depth, legal.len()),
@@ -340,9 +346,88 @@ fn kxk_family(piece: refchess::Pc, pawn_seventh_only: bool) -> Vec<Position> {
     out
 }
 
+/// K+Q v K + one black N/R that the queen may be able to capture: the mating move competes with
+/// captures, which the engine iterates first under a mask
+fn kqk_victim_family(stride: usize) -> Vec<Position> {
+    use refchess::Pc;
+    let mut out = vec![];
+    let mut i = 0usize;
+    for wk in 0..64u8 {
+        for bk in 0..64u8 {
+            let (df, dr) = ((wk % 8) as i8 - (bk % 8) as i8, (wk / 8) as i8 - (bk / 8) as i8);
+            if wk == bk || (df.abs() <= 1 && dr.abs() <= 1) {
+                continue;
+            }
+            for q in 0..64u8 {
+                if q == wk || q == bk {
+                    continue;
+                }
+                for v in 0..64u8 {
+                    if v == wk || v == bk || v == q {
+                        continue;
+                    }
+                    for piece in [Pc::N, Pc::R] {
+                        i += 1;
+                        if i % stride != 0 {
+                            continue;
+                        }
+                        let mut p = Position::empty();
+                        p.turn = Col::W;
+                        p.full = 1;
+                        p.board[wk as usize] = Some((Col::W, Pc::K));
+                        p.board[bk as usize] = Some((Col::B, Pc::K));
+                        p.board[q as usize] = Some((Col::W, Pc::Q));
+                        p.board[v as usize] = Some((Col::B, piece));
+                        if p.valid_root().is_ok() {
+                            out.push(p);
+                        }
+                    }
+                }
+            }
+        }
+    }
+    out
+}
+
+/// pawn on the 7th with a capturable black piece beside the promotion square: push-promotion and
+/// capture-promotion mates compete inside one move-list entry
+fn promo_mate_family() -> Vec<Position> {
+    use refchess::Pc;
+    let mut out = vec![];
+    for f in 0..8i8 {
+        for d in [-1i8, 1] {
+            if !(0..8).contains(&(f + d)) {
+                continue;
+            }
+            for victim in [Pc::N, Pc::R, Pc::B] {
+                for wk in 0..64u8 {
+                    for bk in 0..64u8 {
+                        let mut p = Position::empty();
+                        p.turn = Col::W;
+                        p.full = 1;
+                        p.board[refchess::sq(f, 6) as usize] = Some((Col::W, Pc::P));
+                        p.board[refchess::sq(f + d, 7) as usize] = Some((Col::B, victim));
+                        if p.board[wk as usize].is_some() || p.board[bk as usize].is_some() || wk == bk {
+                            continue;
+                        }
+                        p.board[wk as usize] = Some((Col::W, Pc::K));
+                        p.board[bk as usize] = Some((Col::B, Pc::K));
+                        if p.valid_root().is_ok() {
+                            out.push(p);
+                        }
+                    }
+                }
+            }
+        }
+    }
+    out
+}
+
 pub fn c12_positions(tier: Tier) -> Vec<Position> {
     use refchess::Pc;
     let mut v = vec![];
+    v.extend(kqk_victim_family(tier.pick(16, 1)));
+    v.extend(promo_mate_family());
     let stride = tier.pick(1usize, 1);
     for (i, p) in kxk_family(Pc::Q, false).into_iter().chain(kxk_family(Pc::R, false)).chain(kxk_family(Pc::P, true)).enumerate() {
         // quick keeps every position with a mate in one (cheap to find with the reference later) by
@@ -367,6 +452,12 @@ pub fn c12_positions(tier: Tier) -> Vec<Position> {
         "k1K5/8/8/8/8/8/8/1Q6 w - - 0 1",
         "8/8/8/8/8/5k2/5p1r/5K2 b - - 0 1",
         "3k4/3P4/3K4/8/8/8/8/7R w - - 0 1",
+        // the mate is the push-promotion of a pawn that also has a capture-promotion
+        "r2n2k1/4P2p/6PK/8/8/8/8/8 w - - 0 60",
+        // the mate is a quiet move of a piece that also has captures; and a capture mate next to quiet moves
+        "6k1/5ppp/8/8/8/8/r7/R5K1 w - - 0 1",
+        "6k1/5ppp/8/8/8/2b5/8/3R2K1 w - - 0 1",
+        "5rk1/5ppp/8/8/8/8/8/3Q1RK1 w - - 0 1",
     ] {
         v.push(Position::from_fen(f).unwrap());
     }
@@ -415,7 +506,7 @@ pub fn run_c12(args: &Args) -> i32 {
         json!({
             "evaluations": runs,
             "distinct_nontrivial": with_mate,
-            "rule": "all KQ-K, KR-K and KP(7th rank)-K positions with either side to move, every scenario root and 11 hand-built mates (several mating moves, under-promotion mate, en-passant mate, discovered mate, Black mating), each in both colours and with positional evaluation off and on; each is searched with the smallest k = 32*2^i that lets the first deepening pass complete. Non-trivial = (position, configuration) pairs that have a mate in one AND completed a pass; the rest exercise 'a mate-in-one score is reported only when the move mates'.",
+            "rule": "all KQ-K, KR-K and KP(7th rank)-K positions with either side to move, every 16th (thorough: every) K+Q v K + black N/R position and all K+P(7th) v K + capturable piece beside the promotion square positions (mates that compete with captures, which the engine iterates first under a mask), every scenario root and 15 hand-built mates (several mating moves, under-promotion mate, en-passant mate, discovered mate, Black mating), each in both colours and with positional evaluation off and on; each is searched with the smallest k = 32*2^i that lets the first deepening pass complete. Non-trivial = (position, configuration) pairs that have a mate in one AND completed a pass; the rest exercise 'a mate-in-one score is reported only when the move mates'.",
             "positions": positions.len(),
             "searches_that_completed_a_pass": completed,
             "exhaustive": true,
